@@ -49,6 +49,10 @@ type Result struct {
 	// tree; 2 a cycle across levels; 3 the same node twice under one parent; 4 nodes whose function is unknown;
 	// 5 negative self/total; 6 sample_type_unit with one element; 7 type_id without its colons; 8 empty tree
 	ProfShape int `json:"prof_shape,omitempty"`
+	// TraceShape selects what tempo_traces holds: 0 spans as the writer stores them; 1 some rows with an empty payload
+	// (the ndjson Zipkin decoder before fix abfd578 stored such rows); 2 payload types the reader does not know;
+	// 3 payloads that are neither JSON nor a protobuf span
+	TraceShape int `json:"trace_shape,omitempty"`
 }
 
 // Row is one served row in harness terms.
@@ -499,8 +503,19 @@ func ValueFor(col, sqlText string, row Row, idx int, ncols int, res *Result) dri
 			}
 			return fmt.Sprintf("S%07d", (idx-1)%10000000)
 		case "payload_type":
+			if res.TraceShape == 2 && idx%3 == 1 {
+				return int64([]int{0, 3, -1}[idx%3])
+			}
 			return int64(1 + idx%2)
 		case "payload":
+			switch {
+			case res.TraceShape == 1 && idx%3 != 2:
+				return ""
+			case res.TraceShape == 3 && idx%2 == 0:
+				return `{"traceId": 12, "tags": [`
+			case res.TraceShape == 3:
+				return "\x0a\xff\xff\xff\xff\x0fnot a span"
+			}
 			if idx%2 == 0 {
 				return fmt.Sprintf(`{"traceId":"%x","id":"%x","name":"op%d","timestamp":%d,"duration":5,"localEndpoint":{"serviceName":"svc"},"tags":{"a":"b","n":"%d"},"annotations":[{"timestamp":1,"value":"e"}]}`, tid, sid, idx, row.TsNs/1000, idx)
 			}
